@@ -390,7 +390,7 @@ def run_uncompact(ctx, su) -> Dict[str, int]:
     where = core.loc(COMPACT, fn)
     try:
         streak = 0
-        for r in (3, 5, 12, 27):
+        for r in (1, 3, 5, 12, 27):
             if streak >= 6 or r + 2 > min(su.consts.MAX, 29):
                 break
             try:
@@ -429,12 +429,29 @@ def run_uncompact(ctx, su) -> Dict[str, int]:
                 ("a cell of resolution r with target -2", [a], -2),
             ]
             cases += [(t_ + " (must raise)", n_, tt_) for t_, n_, tt_ in must_raise]
+            if r == 1:
+                # the coarsest levels (round 11): the world cell, the twelve faces and their quintants -- where the aperture changes
+                # (12, 5, 4) and where wrappers that "keep the ids that decode to a cell" lose the world cell
+                G_ = ("G",)
+                cases = [
+                    ("the world cell, to resolution 0", [G_], 0),
+                    ("the world cell, to resolution 1", [G_], 1),
+                    ("the world cell twice, to resolution 0", [G_, G_], 0),
+                    ("a resolution-0 cell already at the target", [P0], 0),
+                    ("a resolution-0 cell, one level down", [P1], 1),
+                    ("a resolution-0 cell, two levels down", [P0], 2),
+                    ("a resolution-1 cell, one level down", [a], 2),
+                    ("a resolution-1 cell, two levels down", [b], 3),
+                    ("a face, the world cell, a quintant", [P1, G_, a], 1),
+                    ("a resolution-1 cell with target 0 (must raise)", [a], 0),
+                    ("a resolution-0 cell with target -1 (must raise)", [P0], -1),
+                ]
             for title, names, t in cases:
                 if streak >= 6:
                     break
                 stats["scenarios"] += 1
                 def res_of(n_):
-                    return fam.r - 1 if n_[0] == "P" else (fam.r + 1 if n_[0] == "d" else fam.r)
+                    return fam.r - 2 if n_[0] == "G" else (fam.r - 1 if n_[0] == "P" else (fam.r + 1 if n_[0] == "d" else fam.r))
                 tag = f"a5.core.compact.uncompact on {title} (resolutions {[res_of(n) for n in names]} -> {t}, {fam.generality()})"
                 if title.endswith("(must raise)"):
                     try:
